@@ -184,6 +184,7 @@ theorem tr_shrink_run (p : Prog) (Inv : SS → Prop) (h : RunInv p Inv) (s0 : SS
         | oob s' => intro hag hrun; have : s = s' := hag; subst this; exact hrun
         | stop s' b' => intro hag; exact absurd hag (by simp [Agree])
       | assertion => cases Script.exec (invOracle p Inv h) (shrinkScript F) ⟨s0, hs0⟩ <;> (intro hag; exact absurd hag (by simp [Agree]))
+      | mismatch => cases Script.exec (invOracle p Inv h) (shrinkScript F) ⟨s0, hs0⟩ <;> (intro hag; exact absurd hag (by simp [Agree]))
       | invalidData m => cases Script.exec (invOracle p Inv h) (shrinkScript F) ⟨s0, hs0⟩ <;> (intro hag; exact absurd hag (by simp [Agree]))
   | oob s => cases Script.exec (invOracle p Inv h) (shrinkScript F) ⟨s0, hs0⟩ <;> (intro hag; exact absurd hag (by simp [Agree]))
   | stop s b =>
